@@ -63,12 +63,16 @@ def gen_history(rng):
     ticks = []
     held = t0
     pay = 0
-    for _ in range(rng.randint(1, 12)):
+    shape = rng.random()
+    n_ticks = rng.randint(1, 12) if shape < 0.9 else rng.randint(40, 120)
+    for _ in range(n_ticks):
         span = md * rng.choice([0.5, 1, 2.5, 7, 20])
         out = held + rng.uniform(-1, 2) * span
         if rng.random() < 0.1:
             out = held
         nr = rng.choice([None, 0, 1, 1, 2, 3, 5])
+        if nr is not None and rng.random() < 0.04:
+            nr = rng.randint(10, 30)   # a burst (e.g. a sensor buffer flushed at once)
         if nr is None:
             rds = None
         else:
@@ -85,6 +89,10 @@ def gen_history(rng):
                     ts = held + rng.uniform(-1.5, 2.5) * span
                 pay += 1
                 rds.append((ts, rng.randint(0, 2), pay))
+            if ticks and ticks[-1][2] and rng.random() < 0.1:
+                # the previous tick's readings are handed over again (the very same objects on the Python side)
+                rds = list(ticks[-1][2][: 2]) + rds
+                rng.shuffle(rds)
         ticks.append((out, rng.randint(1, 9), rds))
         if rds:
             held = rds[-1][0]
@@ -106,13 +114,25 @@ def run_py_history(md, t0, ticks, has_ctl):
     rec = rtmodel.RecFilter(md, control_size=1 if has_ctl else 0)
     mf = ManagedFilter(rec, t0, (), None)
     outs = []
+    objs = {}
+    style = ("list", "tuple", "generator", "iter", "list")[len(ticks) % 5]
     for out, tag, rds in ticks:
         kw = {}
         if has_ctl:
             kw["control"] = tag
         if rds is not None:
-            kw["readings"] = [StampedReading(ts, s, payload=p) for ts, s, p in rds]
-        outs.append(tuple(mf.tick(out, **kw).state))
+            # one StampedReading object per (timestamp, sensor, payload): a reading handed over twice is the same object
+            lst = [objs.setdefault((ts, s, p), StampedReading(ts, s, payload=p)) for ts, s, p in rds]
+            kw["readings"] = {"list": lambda: lst, "tuple": lambda: tuple(lst), "iter": lambda: iter(lst),
+                              "generator": lambda: (r for r in lst)}[style]()
+        try:
+            outs.append(tuple(mf.tick(out, **kw).state))
+        except TypeError:
+            if style in ("generator", "iter") and rds is not None:
+                # a runtime that loudly refuses a one-shot iterator (readings is declared as a List) is not
+                # wrong; silently dropping the readings would be
+                return None
+            raise
     return outs
 
 
@@ -145,6 +165,10 @@ def _py_log(R, rng, ctx):
             R.add([K.V(K.exc_key("py:tick", e), f"tick raised: {K.exc_text(e)}", max_dt=md, t0=t0, ticks=ticks,
                        traceback=K.tb_text(e))])
             continue
+        if outs is None:
+            R.stats.inc("py_one_shot_iterator_refused")
+            continue
+        R.stats.inc("py_histories_style_" + ("list", "tuple", "generator", "iter", "list")[len(ticks) % 5])
         check_history(R, "py", md, t0, ticks, outs, has_ctl, True, fp)
         if not R.samples and nontrivial_history(ticks):
             R.samples.append({"runtime": "py", "max_dt": md, "t0": t0, "ticks": ticks[:3],
@@ -207,6 +231,9 @@ def _cpp_log(R, rng, ctx, i):
             py = run_py_history(md, t0, ticks, has_ctl)
         except Exception:  # noqa: BLE001
             R.stats.inc("py_side_raised_in_comparison")
+            continue
+        if py is None:
+            R.stats.inc("py_one_shot_iterator_refused")
             continue
         R.stats.inc("py_cpp_sequences_compared")
         for ti, (a, b) in enumerate(zip(py, outs_n)):
